@@ -308,7 +308,7 @@ PROPS.update({
         rule="async module programs x deadline orders; distinct = distinct program hash; non-trivial = a module with >= 2 tasks in which a "
              "timer is dropped, reset or loses a select/timeout while other timers of the module are pending",
         fault_probes=["task_polls"],
-        expected_probes=["task_polls"],
+        expected_probes=["task_polls", "timer_created_on_another_thread"],
         assumptions=["tasks of one module do not communicate in C05 scenarios (they share only the module's timer queue)", "sampled, not exhaustive"]),
     "C06": net_prop(
         engine="asy",
@@ -323,6 +323,6 @@ PROPS.update({
         rule="async module programs x number of runnable tasks x chain depth x per-poll work; distinct = distinct program hash; non-trivial = an "
              "instant with >= 2 task resumptions",
         fault_probes=["module_event_with_61_or_more_polls"],
-        expected_probes=["module_event_with_61_or_more_polls", "task_polls", "block_handler_awaits_spawned_worker"],
+        expected_probes=["module_event_with_61_or_more_polls", "task_polls", "block_handler_awaits_spawned_worker", "timer_created_on_another_thread"],
         assumptions=["sampled, not exhaustive"]),
 })
